@@ -188,6 +188,57 @@ def rule_TR3(rep, prog, k, q):
                     sample={"fn": name, "tests": len(tests), "barrier_uses": len(ors)})
 
 
+def rule_WM4(rep, prog):
+    rid = rep.rule("C19-WM4", "dispatch_block_wait tells the two execution modes apart by which of dbpd_thread / dbpd_queue is set, and traps when both are: only the direct "
+                   "invocation (_dispatch_block_invoke_direct) records the executing thread; a submission that publishes dbpd_queue runs the block through an "
+                   "invoke function that consumes dbpd_queue and never through the block's own (direct) invoke", floor=6)
+    consumers = {fn.name for fn in prog.all_functions()
+                 if any(i.op == "atomicrmw" and i.d.get("rmw") == "xchg" and "dbpd_queue" in prog.fields(i) for i in fn.all_insts()) and fn.name != "dispatch_block_wait"}
+    changed = True
+    while changed:
+        changed = False
+        for fn in prog.all_functions():
+            if fn.name not in consumers and fn.name.startswith("_dispatch_block_") and any(c.op == "call" and c.callee in consumers for c in fn.all_insts()):
+                consumers.add(fn.name); changed = True
+    if len(consumers) < 2:
+        rep.unknown(rid, "fewer than 2 invoke functions consuming dbpd_queue found (%s)" % sorted(consumers))
+        return
+    n = 0
+    # (a) who records the thread
+    for fn in prog.all_functions():
+        for st in fn.all_insts():
+            if st.op == "store" and "dbpd_thread" in prog.fields(st) and not (st.ops[0][0] in ("c", "n") and (st.ops[0][0] == "n" or st.ops[0][1] == 0)):
+                n += 1
+                rep.saw(fn)
+                rep.require(rid, fn.name not in consumers and not any(i.op in ("cmpxchg", "atomicrmw") and "dbpd_queue" in prog.fields(i) for i in fn.all_insts()),
+                            st.loc, fn.name, "queued-execution-records-thread:%s" % fn.name,
+                            "%s records the executing thread in dbpd_thread although it runs blocks that were submitted to a queue (dbpd_queue is published for them and "
+                            "cleared only after the body returns): a dispatch_block_wait issued while the body runs finds both set and traps (`run more than once and "
+                            "waited for`) instead of waiting for the completion" % fn.name, sample={"fn": fn.name})
+    # (b) publishers of dbpd_queue hand the block to a consuming invoke function
+    for fn in prog.all_functions():
+        if not any(i.op == "cmpxchg" and "dbpd_queue" in prog.fields(i) for i in fn.all_insts()):
+            continue
+        rep.saw(fn)
+        for c in fn.all_insts():
+            if c.op == "call" and c.callee and (c.callee.endswith("sync_f") or c.callee.endswith("and_wait_f") or c.callee.endswith("_f_slow")) and len(c.ops) >= 3:
+                n += 1
+                f = c.ops[2]
+                rep.require(rid, f[0] == "f" and f[1] in consumers, c.loc, fn.name, "published-queue-but-direct-invoke:%s" % fn.name,
+                            "%s publishes dbpd_queue for the block object and then has it executed through %s instead of an invoke function that consumes dbpd_queue: "
+                            "the block's own invoke records dbpd_thread and leaves dbpd_queue set, so a later dispatch_block_wait on the completed block traps"
+                            % (fn.name, f[1] if f[0] == "f" else "the block's own invoke pointer"), sample={"site": c.loc})
+            if c.op == "store" and prog.fields(c) & {"dc_func", "dsc_func"} and c.ops[0][0] == "f":
+                g = prog.fn(c.ops[0][1], required=False)
+                if "dsc_func" not in prog.fields(c) and g is not None and any(l.op == "load" and "dsc_func" in prog.fields(l) for l in g.all_insts()):
+                    continue  # the generic sync-context trampoline: it runs dsc_func, which is checked where it is stored
+                n += 1
+                rep.require(rid, c.ops[0][1] in consumers, c.loc, fn.name, "published-queue-but-direct-invoke:%s" % fn.name,
+                            "%s publishes dbpd_queue and installs %s as the continuation function, which does not consume dbpd_queue" % (fn.name, c.ops[0][1]))
+    if n < 4:
+        rep.unknown(rid, "fewer than 4 thread-recording / queue-publishing sites found (%d)" % n)
+
+
 def run(rep, tier="quick", srcdir=None, only=None):
     prog, units = load(UNITS, tier, srcdir)
     rep.units = units
@@ -200,6 +251,8 @@ def run(rep, tier="quick", srcdir=None, only=None):
         rule_MP2(rep, prog, k)
     if want("C19-TR3"):
         rule_TR3(rep, prog, k, q)
+    if want("C19-WM4"):
+        rule_WM4(rep, prog)
     if want("C07-MP3") or want("C07-MP4") or want("C07-MP2"):
         # wait / notify of a block object are wait / notify on its private group, which has completed generations behind it after the first
         # execution: the group-side obligations that matter for that state are shared with C07
@@ -220,7 +273,7 @@ def run(rep, tier="quick", srcdir=None, only=None):
 
 
 MANIFEST = {
-    "technique": "dominating-condition and path-sensitive must-pass rules + atomic-site shape rules over the three invoke siblings (LLVM IR)",
+    "technique": "dominating-condition and path-sensitive must-pass rules + atomic-site shape rules over the three invoke siblings (LLVM IR) + who-may-write rule on dbpd_thread and closed-set rule on the invoke functions handed a published dbpd_queue",
     "level": "cancellation guard (bit test) of the body, completion accounting on executed and cancelled paths, exactly-once group_leave, atomicity of every "
              "flag-word update and delegation of wait/notify to the group are decided for all orders of submit/cancel/wait/notify because each is a per-path or "
              "per-atomic-step obligation; the completion semantics themselves are C07's",
